@@ -307,3 +307,155 @@ func (r *report) ambientAuthority() {
 	r.violations = append(r.violations, name)
 	r.structFail = true
 }
+
+// sharedConstantCapacity: structural obligation for C05/C06 - a slice the compiler embeds in the compiled
+// program (stored into code.v) is shared by every run and every input, and the interpreter appends to
+// values it loads from there (opappend, funcOpAdd ...). append writes into spare capacity in place, so
+// such a slice must have none: cap == len by construction. Decided syntactically for the slices whose
+// construction is visible at the store (composite literal, make with equal length and capacity, nil);
+// a slice that reaches code.v as an `any` (constants built by ConstTerm.toValue etc.) is not seen here.
+func (r *report) sharedConstantCapacity() {
+	var keys []string
+	for k := range r.eng.funcs {
+		keys = append(keys, k)
+	}
+	sort.Strings(keys)
+	isCodeV := func(a ssa.Value) bool {
+		fa, ok := a.(*ssa.FieldAddr)
+		if !ok {
+			return false
+		}
+		pt, ok := types.Unalias(fa.X.Type()).Underlying().(*types.Pointer)
+		if !ok {
+			return false
+		}
+		n, ok := types.Unalias(pt.Elem()).(*types.Named)
+		if !ok || n.Obj().Pkg() == nil || n.Obj().Pkg().Path() != gojqPath || n.Obj().Name() != "code" {
+			return false
+		}
+		return n.Underlying().(*types.Struct).Field(fa.Field).Name() == "v"
+	}
+	constInt := func(v ssa.Value) (int64, bool) {
+		if c, ok := v.(*ssa.Const); ok && c.Value != nil {
+			return c.Int64(), true
+		}
+		return 0, false
+	}
+	// "" when cap == len by construction, otherwise the reason it is not (or cannot be seen to be)
+	var tight func(v ssa.Value, depth int) string
+	tight = func(v ssa.Value, depth int) string {
+		if depth > 6 {
+			return "construction not visible"
+		}
+		switch x := v.(type) {
+		case *ssa.Const:
+			if x.Value == nil {
+				return ""
+			}
+		case *ssa.ChangeType:
+			return tight(x.X, depth+1)
+		case *ssa.MakeSlice:
+			if x.Len == x.Cap {
+				return ""
+			}
+			l, ok1 := constInt(x.Len)
+			c, ok2 := constInt(x.Cap)
+			if ok1 && ok2 && l == c {
+				return ""
+			}
+			return "make with a capacity that is not its length"
+		case *ssa.Slice:
+			if al, ok := x.X.(*ssa.Alloc); ok {
+				if at, ok := types.Unalias(al.Type().(*types.Pointer).Elem()).Underlying().(*types.Array); ok {
+					if x.Max == nil {
+						if x.High == nil {
+							return ""
+						}
+						if h, ok := constInt(x.High); ok && h == at.Len() {
+							return ""
+						}
+					} else if x.High != nil {
+						h, ok1 := constInt(x.High)
+						m, ok2 := constInt(x.Max)
+						if x.High == x.Max || (ok1 && ok2 && h == m) {
+							return ""
+						}
+					}
+					return "a slice of an array that leaves spare capacity"
+				}
+			}
+			if x.Max != nil && x.High != nil {
+				h, ok1 := constInt(x.High)
+				m, ok2 := constInt(x.Max)
+				if x.High == x.Max || (ok1 && ok2 && h == m) {
+					return ""
+				}
+			}
+			return "a re-slice whose capacity is not limited to its length"
+		case *ssa.Phi:
+			for _, e := range x.Edges {
+				if w := tight(e, depth+1); w != "" {
+					return w
+				}
+			}
+			return ""
+		}
+		return "construction not visible at the store"
+	}
+	var bad, unseen []string
+	nsites := 0
+	for _, k := range keys {
+		fn := r.eng.funcs[k]
+		pk := r.eng.fnPkg(fn)
+		if pk == nil || pk.Pkg.Path() != gojqPath || len(fn.Blocks) == 0 {
+			continue
+		}
+		for _, b := range fn.Blocks {
+			for _, in := range b.Instrs {
+				st, ok := in.(*ssa.Store)
+				if !ok || !isCodeV(st.Addr) {
+					continue
+				}
+				mi, ok := st.Val.(*ssa.MakeInterface)
+				if !ok {
+					continue
+				}
+				if _, ok := types.Unalias(mi.X.Type()).Underlying().(*types.Slice); !ok {
+					continue
+				}
+				nsites++
+				if w := tight(mi.X, 0); w != "" {
+					msg := fmt.Sprintf("%s embeds %s in the compiled program at %s", k, w, r.eng.fset.Position(st.Pos()))
+					if strings.HasPrefix(w, "construction not visible") {
+						unseen = append(unseen, msg)
+					} else {
+						bad = append(bad, msg)
+					}
+				}
+			}
+		}
+	}
+	r.extraObl++
+	name := "gojq/structural/shared-constants-have-no-spare-capacity"
+	detail := fmt.Sprintf("every slice stored into code.v with a visible construction (%d stores of slice-typed values in package gojq) has cap == len: a composite literal, make with equal length and capacity, a full slice expression limited to its length, or nil", nsites)
+	for _, u := range unseen {
+		r.extraNotes = append(r.extraNotes, "NOTE (not decided, not counted): "+u)
+	}
+	if len(bad) == 0 {
+		r.extraOK++
+		r.extraSamples = append(r.extraSamples, map[string]any{"obligation": name, "kind": "structural (syntactic, no solver)", "clause": detail, "status": "discharged"})
+		return
+	}
+	dir := filepath.Join(r.verif, "replays", r.id)
+	os.MkdirAll(dir, 0o755)
+	path := filepath.Join(dir, "shared-constant-capacity.txt")
+	txt := fmt.Sprintf("property: %s\nobligation: %s\n%s\nfailed:\n", r.id, name, detail)
+	sort.Strings(bad)
+	for _, b := range bad {
+		txt += "  " + b + "\n"
+	}
+	os.WriteFile(path, []byte(txt+"no counterexample: structural obligation\n"), 0o644)
+	fmt.Printf("VIOLATION property=%s replay=%s obligation=%s status=structural no-failing-input-found\n", r.id, path, name)
+	r.violations = append(r.violations, name)
+	r.structFail = true
+}
